@@ -28,6 +28,11 @@ EXPLANATION = (
   ' (RAISE-interval) the cue serialisers refuse end <= begin, so add_isd passes an interval on only after a test on the rounded end and begin has excluded an interval that is empty at millisecond resolution (an interval shorter than the time-code resolution is skipped, never an exception);'
   " (PAIR-default-end) where the merging filters are not applied unconditionally the writer's finish() gives the default end to every cue that has none, not to the last list entry only;"
   ' (LINT-k) no instance field declared with a numeric type is tested by truthiness (the number 0 would count as `not set`);'
+  ' (TRAV-rec) every function that walks the tree by calling itself on the children reaches that child loop on every path (the three walkers that prune by design are tabled with the rules that decide their pruning);'
+  ' (LINT-l) no tuple / list / set display of the anchored modules lists the same computed component twice and no dict display repeats a key (a key or fingerprint built that way cannot tell apart what the missing component would have);'
+  ' (STATE-share) no assignment stores a container field of one object (a field the package updates in place) into a field of another object without copying it, so an in-place update of one object never changes another;'
+  " (ITEM-source) an object built once per item of an inner loop is filled only with values that derive from that item or do not vary with the loops, never with a value of the enclosing container standing where the item's own belongs;"
+  " (COND-supported) for every assignment of the writers' boolean options, each style property a writer method or tag helper reads under that assignment is kept by the style whitelist the constructor builds for it;"
 )
 RULE_TEXT = "per tag pair, per tag append, per supported value, per text flow"
 UNDECIDED = ["cue-setting values (line, align) vs the computed position and alignment", "no empty line / no '-->' inside an SRT payload (SRT has no escaping mechanism)",
@@ -222,6 +227,149 @@ def check_supported(ctx):
           got = ce.try_ev(m, v)
           ctx.check(got == init, "TAB-supported", f"{wm}|default of {prop}", ctx.where(m, v), f"{got!r} is the TTML initial value",
                     f"the {tag} writer treats {got!r} as the default of {prop}, but its initial value is {init!r}: styled text loses or gains tags")
+
+
+def _option_of(e):
+  """`self._config.<opt>` / `config.<opt>` -> opt"""
+  if isinstance(e, ast.Attribute) and unparse(e.value) in ("self._config", "config", "self.config"):
+    return e.attr
+  return None
+
+
+def _option_truth(test, combo):
+  """Truth of a test that consists of option reads only (None when it reads anything else)."""
+  o = _option_of(test)
+  if o is not None:
+    return combo.get(o)
+  if isinstance(test, ast.UnaryOp) and isinstance(test.op, ast.Not):
+    v = _option_truth(test.operand, combo)
+    return None if v is None else (not v)
+  if isinstance(test, ast.BoolOp):
+    vs = [_option_truth(v, combo) for v in test.values]
+    if any(v is None for v in vs):
+      return None
+    return all(vs) if isinstance(test.op, ast.And) else any(vs)
+  return None
+
+
+def _whitelist_for(f, combo):
+  """Abstract run of the constructor for one assignment of the boolean options: the property names in the
+  dict that reaches SupportedStylePropertiesISDFilter."""
+  dicts = {}
+  result = []
+
+  def keys_of(e):
+    if isinstance(e, ast.Dict):
+      out = set()
+      for k, v in zip(e.keys, e.values):
+        if k is None:
+          out |= keys_of(v)
+        else:
+          out.add(unparse(k).split(".")[-1])
+      return out
+    if isinstance(e, ast.Name) and e.id in dicts:
+      return set(dicts[e.id])
+    if isinstance(e, ast.Call) and unparse(e.func) in ("dict", "copy.copy", "copy.deepcopy") and len(e.args) == 1:
+      return keys_of(e.args[0])
+    if isinstance(e, ast.Call) and isinstance(e.func, ast.Attribute) and e.func.attr == "copy" and not e.args:
+      return keys_of(e.func.value)
+    if isinstance(e, ast.BinOp) and isinstance(e.op, ast.BitOr):
+      return keys_of(e.left) | keys_of(e.right)
+    if isinstance(e, ast.IfExp):
+      t = _option_truth(e.test, combo)
+      if t is not None:
+        return keys_of(e.body if t else e.orelse)
+    raise AnalysisError(f"{f.qualname}: unrecognised construction of the supported-style table: {short(e, 60)}")
+
+  def run(stmts):
+    for st in stmts:
+      if isinstance(st, ast.If):
+        t = _option_truth(st.test, combo)
+        if t is None:
+          if any(isinstance(n, ast.Name) and n.id in dicts for n in ast.walk(st)) or "SupportedStylePropertiesISDFilter" in unparse(st):
+            raise AnalysisError(f"{f.qualname}: the supported-style table depends on `{short(st.test, 50)}`, which is not a configuration option")
+          continue
+        run(st.body if t else st.orelse)
+        continue
+      if isinstance(st, (ast.Assign, ast.AnnAssign)) and getattr(st, "value", None) is not None:
+        tg = st.targets[0] if isinstance(st, ast.Assign) else st.target
+        if isinstance(tg, ast.Name) and (isinstance(st.value, ast.Dict) or (isinstance(st.value, ast.Name) and st.value.id in dicts)
+                                         or any(isinstance(n, ast.Name) and n.id in dicts for n in ast.walk(st.value))):
+          if isinstance(st.value, ast.Dict) and not all(k is None or "StyleProperties." in unparse(k) for k in st.value.keys):
+            pass
+          else:
+            dicts[tg.id] = keys_of(st.value)
+            continue
+        if isinstance(tg, ast.Subscript) and isinstance(tg.value, ast.Name) and tg.value.id in dicts:
+          dicts[tg.value.id].add(unparse(tg.slice).split(".")[-1])
+          continue
+      for c in ast.walk(st):
+        if isinstance(c, ast.Call) and isinstance(c.func, ast.Attribute) and isinstance(c.func.value, ast.Name) and c.func.value.id in dicts:
+          nm = c.func.value.id
+          if c.func.attr == "update" and len(c.args) == 1:
+            dicts[nm] |= keys_of(c.args[0])
+          elif c.func.attr == "pop" and c.args:
+            dicts[nm].discard(unparse(c.args[0]).split(".")[-1])
+          elif c.func.attr == "setdefault" and c.args:
+            dicts[nm].add(unparse(c.args[0]).split(".")[-1])
+          elif c.func.attr not in ("get", "keys", "items", "values", "copy"):
+            raise AnalysisError(f"{f.qualname}: unrecognised operation on the supported-style table: {short(c, 60)}")
+        if isinstance(c, ast.Call) and unparse(c.func).endswith("SupportedStylePropertiesISDFilter") and c.args:
+          result.append(keys_of(c.args[0]))
+      if isinstance(st, ast.Delete):
+        for t in st.targets:
+          if isinstance(t, ast.Subscript) and isinstance(t.value, ast.Name) and t.value.id in dicts:
+            dicts[t.value.id].discard(unparse(t.slice).split(".")[-1])
+  run(f.node.body)
+  if len(result) != 1:
+    raise AnalysisError(f"{f.qualname}: expected one SupportedStylePropertiesISDFilter(...) per constructor run, found {len(result)}")
+  return result[0]
+
+
+def check_supported_per_option(ctx):
+  """COND-supported: for every assignment of the writer's boolean options, each style property a method reads
+  (under the options that guard the read) is kept by the style whitelist the constructor builds for that assignment."""
+  import itertools
+  ix = ctx.ix
+  n = 0
+  # the SRT writer has one whitelist for all configurations (class-level filter tuple): TAB-supported decides it
+  for cq, sm in (("ttconv.vtt.writer:VttContext", "ttconv.vtt.style"),):
+    c = ix.cls(cq)
+    init = c.methods["__init__"]
+    ctx.unit(c.module)
+    opts = sorted({o for m in c.methods.values() for t in own_nodes(m.node) if isinstance(t, (ast.If, ast.IfExp)) for x in ast.walk(t.test) for o in [_option_of(x)] if o})
+    opts = [o for o in opts if any(_option_truth(t.test, {o: True}) is not None or o in unparse(t.test) for t in own_nodes(init.node) if isinstance(t, ast.If))]
+    combos = [dict(zip(opts, vs)) for vs in itertools.product((False, True), repeat=len(opts))] if len(opts) <= 4 else None
+    if combos is None:
+      raise AnalysisError(f"{cq}: more than 4 boolean options shape the style whitelist")
+    wl = {tuple(sorted(cb.items())): _whitelist_for(init, cb) for cb in combos}
+    reads = []
+    for m in c.methods.values():
+      for node in own_nodes(m.node):
+        if isinstance(node, ast.Call) and isinstance(node.func, ast.Attribute) and node.func.attr == "get_style" and node.args and "StyleProperties." in unparse(node.args[0]):
+          conds = [(t, pol) for (t, pol) in match.enclosing_conditions(node, m.node)]
+          reads.append((m, node, unparse(node.args[0]).split(".")[-1], conds))
+    s = ix.mod(sm)
+    for g in ix.funcs_in(sm):
+      for node in own_nodes(g.node):
+        if isinstance(node, ast.Call) and isinstance(node.func, ast.Attribute) and node.func.attr == "get_style" and node.args and "StyleProperties." in unparse(node.args[0]):
+          reads.append((g, node, unparse(node.args[0]).split(".")[-1], []))
+    for (m, node, prop, conds) in reads:
+      n += 1
+      missing = []
+      for cb in combos:
+        feasible = True
+        for (t, pol) in conds:
+          v = _option_truth(t, cb)
+          if v is not None and v != pol:
+            feasible = False
+        if feasible and prop not in wl[tuple(sorted(cb.items()))]:
+          missing.append(", ".join(f"{k}={v}" for k, v in cb.items()) or "any configuration")
+      ctx.check(not missing, "COND-supported", f"{m.qualname}|{prop} read", ctx.where(m.module, node),
+                f"{prop} is whitelisted for every option assignment under which it is read ({len(combos)} assignments)",
+                f"{m.short} reads {prop} when [{'; '.join(missing[:3])}], but the style whitelist built by {init.short} for that configuration does not keep {prop}: "
+                f"the filter strips it and the read yields None (AttributeError / wrong cue settings)")
+  ctx.floor("COND-supported", "style reads in the cue writers", n, 8)
 
 
 def check_escaping(ctx):
@@ -445,6 +593,7 @@ def run(ctx):
   check_tag_pairing(ctx, "ttconv.vtt.writer:VttContext.process_inline_element")
   check_formatting_guard(ctx)
   check_supported(ctx)
+  check_supported_per_option(ctx)
   check_escaping(ctx)
   check_numbering_header(ctx)
   check_line_position(ctx)
@@ -462,4 +611,5 @@ def run(ctx):
   for q_ in ("ttconv.srt.writer:SrtContext", "ttconv.vtt.writer:VttContext"):
     shape.check_default_end(ctx, ctx.ix.cls(q_))
   common.check_numeric_fields(ctx, common.WRITERS)
+  common.check_walkers(ctx, common.ISD_FILTERS + ["ttconv.srt.writer", "ttconv.vtt.writer"])
   common.check_history_independence(ctx, common.WRITERS + common.ISD_FILTERS)
